@@ -9,8 +9,15 @@
 //!     stack+altstack depth by running the Lean Script semantics) and answers `ok` iff every
 //!     measured value is <= the figure the library claims (script size: ==), and iff a script
 //!     the library declares within the limits of its context really stays within them.
-//! (c) `J descw` / `J planw`: descriptor-level `max_weight_to_satisfy` and the sizes a `Plan`
-//!     announces versus the (scriptSig, witness) the library really produces.
+//!     The line also carries what the PUBLIC API says: `max_satisfaction_size()`,
+//!     `max_satisfaction_witness_elements()`, `within_resource_limits()` and `validate()` under
+//!     the resource limits of `Ctx::CONSENSUS` / `Ctx::SANE`; `C maxsat` / `C wrl` / `C rescheck`
+//!     compare the same calls with the model on every node.
+//! (c) `J descw` / `J planw`: descriptor-level `max_weight_to_satisfy` (tr() trees up to depth 4,
+//!     every leaf and the key path) and the sizes a `Plan` announces versus the
+//!     (scriptSig, witness) the library really produces.
+//! Panics of the library and "no figure / no plan although a satisfaction exists" are judged
+//! lines (`J nopanic … PANIC`, `sat=none`, `claimed=none`), not counters.
 use std::collections::{BTreeSet, HashMap};
 use std::sync::Arc;
 
@@ -23,7 +30,7 @@ use miniscript::miniscript::satisfy::Witness;
 use miniscript::miniscript::types::Base;
 use miniscript::{
     hash256, BareCtx, Descriptor, Legacy, Miniscript, MiniscriptKey, Satisfier, ScriptContext,
-    Segwitv0, Tap, ToPublicKey,
+    Segwitv0, Tap, ToPublicKey, ValidationError, ValidationParams,
 };
 
 use crate::ast::{self, hex, CtxK, KeyOf, Node, HK};
@@ -252,24 +259,65 @@ where for<'a> Sat9<'a>: Satisfier<Pk>
         let w = if mall { ms.satisfy_malleable(&sat) } else { ms.satisfy(&sat) };
         (t, w)
     }));
-    let (tmpl, wit) = match res { Ok(x) => x, Err(_) => { out.count("bound: satisfier panicked"); return; } };
+    let (tmpl, wit) = match res {
+        Ok(x) => x,
+        Err(_) => {
+            out.line(&format!("J nopanic bound/satisfy {} {} {} {} PANIC", ctx.name(), node.wire(), assets.wire(), mode), "ok");
+            return;
+        }
+    };
     let wit = match (&tmpl.stack, wit) { (Witness::Stack(_), Ok(w)) => w, _ => { out.count("bound: no satisfaction"); return; } };
     let script = ms.encode();
-    let lim = Ctx::check_local_validity(&ms).is_ok();
-
-
-    if ms.ext.sat_data.is_none() { out.count("bound: satisfied although sat_data = None"); }
+    // what the public API declares
+    let api = std::panic::catch_unwind(std::panic::AssertUnwindSafe(|| {
+        (ms.within_resource_limits(),
+         ms.validate(&resource_only(&Ctx::CONSENSUS)).is_ok(),
+         ms.validate(&resource_only(&Ctx::SANE)).is_ok(),
+         ms.max_satisfaction_size().ok(),
+         ms.max_satisfaction_witness_elements().ok())
+    }));
+    let (lim, vc, vs, mss, mwe) = match api {
+        Ok(x) => x,
+        Err(_) => {
+            out.line(&format!("J nopanic bound/api {} {} PANIC", ctx.name(), node.wire()), "ok");
+            return;
+        }
+    };
+    let on = |x: Option<usize>| x.map(|v| v.to_string()).unwrap_or("none".into());
     let (lt, sq) = msops::tx_fields(
         tmpl.absolute_timelock.map(|t| t.to_consensus_u32()),
         tmpl.relative_timelock.map(|t| t.to_consensus_u32()),
     );
     out.line(
-        &format!("J bound {} {} {} {} {} | {} {} {} {} lim={} st={} ssz={} pkc={} sat={}",
+        &format!("J bound {} {} {} {} {} | {} {} {} {} lim={} st={} ssz={} pkc={} sat={} vc={} vs={} mss={} mwe={}",
             ctx.name(), node.wire(), assets.wire(), mode, if pad { "pad" } else { "std" },
             lt, sq, hex(script.as_bytes()), wit_wire(&wit),
-            lim as u8, ms.ext.static_ops, ms.script_size(), ms.ext.pk_cost, show_satdata(&ms.ext.sat_data)),
+            lim as u8, ms.ext.static_ops, ms.script_size(), ms.ext.pk_cost, show_satdata(&ms.ext.sat_data),
+            vc as u8, vs as u8, on(mss), on(mwe)),
         "ok",
     );
+}
+
+/// `ValidationParams::MAX` with the four resource limits of `base`: `validate` then only reports
+/// resource errors
+fn resource_only(base: &ValidationParams) -> ValidationParams {
+    let mut p = ValidationParams::MAX;
+    p.max_opcode_count = base.max_opcode_count;
+    p.max_script_size = base.max_script_size;
+    p.max_witness_items = base.max_witness_items;
+    p.max_exec_stack_size = base.max_exec_stack_size;
+    p
+}
+
+fn show_vres(r: &Result<(), ValidationError>) -> &'static str {
+    match r {
+        Ok(()) => "ok",
+        Err(ValidationError::MaxScriptSizeExceeded { .. }) => "err:script-size",
+        Err(ValidationError::MaxWitnessItemsExceeded { .. }) => "err:witness-items",
+        Err(ValidationError::MaxOpCountExceeded { .. }) => "err:op-count",
+        Err(ValidationError::MaxExecStackSizeExceeded { .. }) => "err:exec-stack",
+        Err(_) => "err:other",
+    }
 }
 
 fn bound_all<Pk: HKey9, Ctx: ScriptContext>(out: &mut Out, ctx: CtxK, node: &Node, cap: usize)
@@ -309,6 +357,22 @@ fn static_lines<Pk: HKey9, Ctx: ScriptContext>(out: &mut Out, ctx: CtxK, node: &
     let w = node.wire();
     out.line(&format!("C ext {} {}", ctx.name(), w), &msops::show_ext(&ms.ext));
     out.line(&format!("C scriptsize {} {}", ctx.name(), w), &ms.script_size().to_string());
+    let on = |x: Option<usize>| x.map(|v| v.to_string()).unwrap_or("none".into());
+    let api = std::panic::catch_unwind(std::panic::AssertUnwindSafe(|| {
+        (format!("{} {}", on(ms.max_satisfaction_size().ok()), on(ms.max_satisfaction_witness_elements().ok())),
+         ms.within_resource_limits(),
+         show_vres(&ms.validate(&resource_only(&Ctx::CONSENSUS))),
+         show_vres(&ms.validate(&resource_only(&Ctx::SANE))))
+    }));
+    match api {
+        Ok((m, wrl, c, sn)) => {
+            out.line(&format!("C maxsat {} {}", ctx.name(), w), &m);
+            out.line(&format!("C wrl {} {}", ctx.name(), w), if wrl { "1" } else { "0" });
+            out.line(&format!("C rescheck {} consensus {}", ctx.name(), w), c);
+            out.line(&format!("C rescheck {} sane {}", ctx.name(), w), sn);
+        }
+        Err(_) => out.line(&format!("J nopanic static/api {} {} PANIC", ctx.name(), w), "ok"),
+    }
 }
 
 macro_rules! with_ctx9 {
@@ -496,20 +560,37 @@ fn near_520_legacy(n3: usize, n4: usize) -> String {
 
 /* ------------------------------------------------------------------ (c) descriptors and plans */
 
-fn finish_desc<Pk: HKey9>(out: &mut Out, kind: &str, input: &str, desc: &Descriptor<Pk>, assets: &Assets, mall: bool, pad: bool, keyspend: bool, plan: bool)
+/// what to judge for one produced spend
+#[derive(Clone, Copy, PartialEq)]
+enum DMode {
+    /// `max_weight_to_satisfy`
+    Weight,
+    /// all three plan sizes, against get_satisfaction's and Plan::satisfy's output
+    PlanFull,
+    /// only the witness items the plan's template stands for (wsh / sh-wsh outside the keyed
+    /// corpus: that the witness script is missing from `witness_size` is a known finding)
+    PlanItems,
+}
+
+fn finish_desc<Pk: HKey9>(out: &mut Out, kind: &str, input: &str, desc: &Descriptor<Pk>, assets: &Assets, mall: bool, pad: bool, keyspend: bool, dm: DMode)
 where for<'a> Sat9<'a>: Satisfier<Pk>
 {
     let sat = Sat9 { a: assets, pad, keyspend };
     let mode = if mall { "mall" } else { "nonmall" };
+    let head = format!("{} {} {} {} {}", kind, input, assets.wire(), mode, if pad { "pad" } else { "std" });
     let res = std::panic::catch_unwind(std::panic::AssertUnwindSafe(|| {
         if mall { desc.get_satisfaction_mall(&sat) } else { desc.get_satisfaction(&sat) }
     }));
-    let (wit, ss): (Vec<Vec<u8>>, ScriptBuf) = match res { Ok(Ok(x)) => x, Ok(Err(_)) => { out.count("desc: no satisfaction"); return; } Err(_) => { out.count("desc: panicked"); return; } };
-    let head = format!("{} {} {} {} {}", kind, input, assets.wire(), mode, if pad { "pad" } else { "std" });
-    if !plan {
-        let claimed = match desc.max_weight_to_satisfy() {
-            Ok(w) => w.to_wu().to_string(),
-            Err(_) => { out.count("desc: satisfied although max_weight_to_satisfy = Err"); "none".into() }
+    let (wit, ss): (Vec<Vec<u8>>, ScriptBuf) = match res {
+        Ok(Ok(x)) => x,
+        Ok(Err(_)) => { out.count("desc: no satisfaction"); return; }
+        Err(_) => { out.line(&format!("J nopanic desc/get_satisfaction {} PANIC", head), "ok"); return; }
+    };
+    if dm == DMode::Weight {
+        let claimed = match std::panic::catch_unwind(std::panic::AssertUnwindSafe(|| desc.max_weight_to_satisfy())) {
+            Ok(Ok(w)) => w.to_wu().to_string(),
+            Ok(Err(_)) => "none".into(),     // judged: a produced spend without a weight figure is a failure
+            Err(_) => { out.line(&format!("J nopanic desc/max_weight_to_satisfy {} PANIC", head), "ok"); return; }
         };
         // independent oracle for the definition in the doc comment: TxIn::segwit_weight difference
         let txin = miniscript::bitcoin::TxIn { script_sig: ss.clone(), witness: miniscript::bitcoin::Witness::from_slice(&wit), ..Default::default() };
@@ -519,20 +600,38 @@ where for<'a> Sat9<'a>: Satisfier<Pk>
         let p = std::panic::catch_unwind(std::panic::AssertUnwindSafe(|| {
             if mall { desc.clone().into_plan_mall(&sat) } else { desc.clone().into_plan(&sat) }
         }));
-        let p = match p { Ok(Ok(p)) => p, _ => { out.count("plan: none"); return; } };
+        let p = match p {
+            Ok(Ok(p)) => p,
+            Ok(Err(_)) => {
+                // a spend exists but no plan (hence no announced size): judged
+                out.line(&format!("J planw {} getsat | {} {} claimed=none", head, hex(ss.as_bytes()), wit_wire(&wit)), "ok");
+                return;
+            }
+            Err(_) => { out.line(&format!("J nopanic desc/into_plan {} PANIC", head), "ok"); return; }
+        };
         let claimed = format!("{},{},{}", p.witness_size(), p.scriptsig_size(), p.satisfaction_weight());
+        if dm == DMode::PlanItems {
+            out.line(&format!("J planw {} items | {} {} claimed={}", head, hex(ss.as_bytes()), wit_wire(&wit), claimed), "ok");
+            return;
+        }
         // versus what Descriptor::get_satisfaction produced ...
         out.line(&format!("J planw {} getsat | {} {} claimed={}", head, hex(ss.as_bytes()), wit_wire(&wit), claimed), "ok");
         // ... and versus what Plan::satisfy itself produces
-        if let Ok(Ok((pw, pss))) = std::panic::catch_unwind(std::panic::AssertUnwindSafe(|| p.satisfy(&sat))) {
-            out.line(&format!("J planw {} plansat | {} {} claimed={}", head, hex(pss.as_bytes()), wit_wire(&pw), claimed), "ok");
+        match std::panic::catch_unwind(std::panic::AssertUnwindSafe(|| p.satisfy(&sat))) {
+            Ok(Ok((pw, pss))) => out.line(&format!("J planw {} plansat | {} {} claimed={}", head, hex(pss.as_bytes()), wit_wire(&pw), claimed), "ok"),
+            Ok(Err(_)) => out.count("plan: Plan::satisfy failed"),
+            Err(_) => out.line(&format!("J nopanic desc/Plan::satisfy {} PANIC", head), "ok"),
         }
     }
 }
 
-fn desc_ms_cases(out: &mut Out, ctx: CtxK, node: &Node, cap: usize, plan: bool) {
+/// `plan`: None = weight; Some(true) = plan sizes, full comparison for every kind (keyed corpus);
+/// Some(false) = plan sizes, wsh / sh-wsh restricted to the witness items
+fn desc_ms_cases(out: &mut Out, ctx: CtxK, node: &Node, cap: usize, plan: Option<bool>) {
     let w = node.wire();
     let subsets = asset_subsets9(node, cap);
+    let full = match plan { None => DMode::Weight, Some(_) => DMode::PlanFull };
+    let wsh_mode = match plan { None => DMode::Weight, Some(true) => DMode::PlanFull, Some(false) => DMode::PlanItems };
     match ctx {
         CtxK::Segwitv0 => {
             let ms: Miniscript<PublicKey, Segwitv0> = match ast::to_ms(node) { Ok(m) => m, Err(_) => return };
@@ -541,7 +640,7 @@ fn desc_ms_cases(out: &mut Out, ctx: CtxK, node: &Node, cap: usize, plan: bool) 
             for (kind, d) in [("wsh", d1), ("sh-wsh", d2)] {
                 let d = match d { Ok(d) => d, Err(_) => { out.count("desc: constructor rejected"); continue } };
                 for a in &subsets { for mall in [false, true] { for pad in [false, true] {
-                    finish_desc(out, kind, &w, &d, a, mall, pad, false, plan);
+                    finish_desc(out, kind, &w, &d, a, mall, pad, false, wsh_mode);
                 } } }
             }
         }
@@ -549,14 +648,14 @@ fn desc_ms_cases(out: &mut Out, ctx: CtxK, node: &Node, cap: usize, plan: bool) 
             let ms: Miniscript<PublicKey, Legacy> = match ast::to_ms(node) { Ok(m) => m, Err(_) => return };
             let d = match Descriptor::new_sh(ms) { Ok(d) => d, Err(_) => { out.count("desc: constructor rejected"); return } };
             for a in &subsets { for mall in [false, true] { for pad in [false, true] {
-                finish_desc(out, "sh", &w, &d, a, mall, pad, false, plan);
+                finish_desc(out, "sh", &w, &d, a, mall, pad, false, full);
             } } }
         }
         CtxK::Bare => {
             let ms: Miniscript<PublicKey, BareCtx> = match ast::to_ms(node) { Ok(m) => m, Err(_) => return };
             let d = match Descriptor::new_bare(ms) { Ok(d) => d, Err(_) => { out.count("desc: constructor rejected"); return } };
             for a in &subsets { for mall in [false, true] { for pad in [false, true] {
-                finish_desc(out, "bare", &w, &d, a, mall, pad, false, plan);
+                finish_desc(out, "bare", &w, &d, a, mall, pad, false, full);
             } } }
         }
         CtxK::Tap => {
@@ -569,14 +668,71 @@ fn desc_ms_cases(out: &mut Out, ctx: CtxK, node: &Node, cap: usize, plan: bool) 
             for (kind, t) in [("tr-leaf", t1), ("tr-2leaves", t2)] {
                 let d = match Descriptor::new_tr(ik, Some(t)) { Ok(d) => d, Err(_) => { out.count("desc: constructor rejected"); continue } };
                 for a in &subsets { for mall in [false, true] {
-                    finish_desc(out, kind, &w, &d, a, mall, false, false, plan);
+                    finish_desc(out, kind, &w, &d, a, mall, false, false, full);
                 } }
             }
         }
     }
 }
 
+/* ---- tr() with deeper and unbalanced trees ---- */
+
+/// tree shapes as the list of leaf depths in left-to-right order
+const TR_SHAPES: [(&str, &[u8]); 7] = [
+    ("comb-r4", &[1, 2, 3, 4, 4]),
+    ("comb-l4", &[4, 4, 3, 2, 1]),
+    ("bal2", &[2, 2, 2, 2]),
+    ("bal3", &[3, 3, 3, 3, 3, 3, 3, 3]),
+    ("mix-a", &[2, 3, 3, 1]),
+    ("mix-b", &[1, 3, 3, 2]),
+    ("mix-c", &[3, 4, 4, 2, 1]),
+];
+
+fn build_tree(depths: &[u8], idx: &mut usize, d: u8, leaves: &[Arc<Miniscript<XOnlyPublicKey, Tap>>]) -> TapTree<XOnlyPublicKey> {
+    if depths[*idx] == d {
+        let t = TapTree::leaf(leaves[*idx].clone());
+        *idx += 1;
+        t
+    } else {
+        let l = build_tree(depths, idx, d + 1, leaves);
+        let r = build_tree(depths, idx, d + 1, leaves);
+        TapTree::combine(l, r).expect("depth <= 128")
+    }
+}
+
+/// `node` as leaf number `pos` of the shape, every other leaf `pk(<own key>)`; spends through
+/// the script under test, through EVERY filler leaf (its key only) and through the key path
+fn tr_tree_cases(out: &mut Out, node: &Node, shape: usize, pos: usize, cap: usize, plan: bool) {
+    let (name, depths) = TR_SHAPES[shape];
+    let pos = pos % depths.len();
+    let ms: Miniscript<XOnlyPublicKey, Tap> = match ast::to_ms(node) { Ok(m) => m, Err(_) => return };
+    let filler_key = |i: usize| 220 + i as u32;
+    let leaves: Vec<Arc<Miniscript<XOnlyPublicKey, Tap>>> = (0..depths.len()).map(|i| {
+        if i == pos { Arc::new(ms.clone()) }
+        else { Arc::new(ast::to_ms(&Node::Check(Box::new(Node::PkK(filler_key(i))))).unwrap()) }
+    }).collect();
+    let tree = build_tree(depths, &mut 0, 0, &leaves);
+    let ik = 239u32;
+    let d = match Descriptor::new_tr(ast::xonly_key(ik), Some(tree)) { Ok(d) => d, Err(_) => { out.count("desc: constructor rejected"); return } };
+    let kind = format!("tr-{}@{}", name, pos);
+    let w = node.wire();
+    let dm = if plan { DMode::PlanFull } else { DMode::Weight };
+    for a in asset_subsets9(node, cap) {
+        for mall in [false, true] { finish_desc(out, &kind, &w, &d, &a, mall, false, false, dm); }
+    }
+    for i in 0..depths.len() {
+        if i == pos { continue; }
+        let mut a = Assets::default();
+        a.schnorr.insert(filler_key(i), if i % 2 == 0 { 64 } else { 65 });
+        finish_desc(out, &kind, &format!("{}/leaf{}", w, i), &d, &a, false, false, false, dm);
+    }
+    let mut a = Assets::default();
+    a.schnorr.insert(ik, 65);
+    finish_desc(out, &kind, &format!("{}/keypath", w), &d, &a, false, false, true, dm);
+}
+
 fn desc_key_cases(out: &mut Out, plan: bool) {
+    let dm = if plan { DMode::PlanFull } else { DMode::Weight };
     for id in [0u32, 2, 100] {
         let pk = ast::full_key(id);
         let mut a = Assets::default();
@@ -587,14 +743,14 @@ fn desc_key_cases(out: &mut Out, plan: bool) {
         // Plan::scriptsig_size is one byte short for sh(wpkh) (known finding): one representative
         if !plan || id == 0 { if let Ok(d) = Descriptor::new_sh_wpkh(pk) { ds.push(("sh-wpkh", d)); } }
         for (kind, d) in ds {
-            for pad in [false, true] { finish_desc(out, kind, &id.to_string(), &d, &a, false, pad, false, plan); }
+            for pad in [false, true] { finish_desc(out, kind, &id.to_string(), &d, &a, false, pad, false, dm); }
         }
     }
     for id in [200u32, 201] {
         let d = Descriptor::new_tr(ast::xonly_key(id), None).unwrap();
         let mut a = Assets::default();
         a.schnorr.insert(id, if id % 2 == 0 { 64 } else { 65 });
-        finish_desc(out, "tr-key", &id.to_string(), &d, &a, false, false, true, plan);
+        finish_desc(out, "tr-key", &id.to_string(), &d, &a, false, false, true, dm);
     }
 }
 
@@ -689,17 +845,36 @@ pub fn run(out: &mut Out, thorough: bool, seed: u64) {
         }
     }
 
-    // ---- descriptors: max_weight_to_satisfy ----------------------------------------------------
+    // ---- descriptors: max_weight_to_satisfy, and the plan sizes on the same pool -----------------
     let n_desc = if thorough { 3000 } else { 500 };
     let step = (desc_pool.len() / n_desc).max(1);
+    let mut n_tap = 0usize;
     for (i, (ctx, node)) in desc_pool.iter().enumerate() {
         if i % step != 0 && node.size() <= 6 { continue; }
-        desc_ms_cases(out, *ctx, node, if thorough { 6 } else { 3 }, false);
+        desc_ms_cases(out, *ctx, node, if thorough { 6 } else { 3 }, None);
+        // plan sizes: every kind; for wsh / sh-wsh only the witness items (known finding otherwise)
+        if i % (2 * step) == 0 || node.size() > 6 { desc_ms_cases(out, *ctx, node, 2, Some(false)); }
+        if *ctx == CtxK::Tap {
+            // deeper / unbalanced trees: shape and position cycle through all combinations
+            let shape = n_tap % TR_SHAPES.len();
+            let pos = n_tap / TR_SHAPES.len();
+            n_tap += 1;
+            tr_tree_cases(out, node, shape, pos, if thorough { 4 } else { 2 }, false);
+            if n_tap % 4 == 0 { tr_tree_cases(out, node, shape, pos + 1, 2, true); }
+        }
+    }
+    // every shape x every position once with a fixed script
+    for shape in 0..TR_SHAPES.len() {
+        for pos in 0..TR_SHAPES[shape].1.len() {
+            let node = parse_node(if pos % 2 == 0 { "and_v(v(c(pk_k(200))),sha256(0))" } else { "multi_a(2,200,201,202)" });
+            tr_tree_cases(out, &node, shape, pos, 4, false);
+            tr_tree_cases(out, &node, shape, pos, 2, true);
+        }
     }
     desc_key_cases(out, false);
-    desc_ms_cases(out, CtxK::Tap, &parse_node("thresh(1,c(pk_k(200)),a(0),a(0))"), 4, false);
+    desc_ms_cases(out, CtxK::Tap, &parse_node("thresh(1,c(pk_k(200)),a(0),a(0))"), 4, None);
 
-    // ---- plans: fixed explicit corpus only (wsh / sh-wsh / sh-wpkh plan sizes are known findings) -
+    // ---- plans: keyed corpus (wsh / sh-wsh / sh-wpkh plan sizes are known findings) -------------
     desc_key_cases(out, true);
     for (ctx, s) in [
         (CtxK::Bare, "c(pk_k(0))"), (CtxK::Bare, "c(pk_h(0))"), (CtxK::Bare, "multi(2,0,1,2)"),
@@ -709,12 +884,12 @@ pub fn run(out: &mut Out, thorough: bool, seed: u64) {
         (CtxK::Legacy, "c(pk_k(0))"), (CtxK::Legacy, "multi(2,0,1,2)"),
         (CtxK::Bare, "multi(3,0,1,2)"),
     ] {
-        desc_ms_cases(out, ctx, &parse_node(s), 1, true);
+        desc_ms_cases(out, ctx, &parse_node(s), 1, Some(true));
     }
 
     out.note("distinct_nontrivial", (n_static + n_judged_scripts).to_string());
     out.note("domain", format!(
-        "{} nodes of all base types (C ext, C scriptsize): every context, quota-enumerated to depth {} + random larger + hand-written corpus (lock values at every script_num_size boundary, multi k,n around 16/17/20, multi_a n<=40, thresh n<=20 incl. unsatisfiable children, and_v chains to depth 20); {} B-typed scripts judged on every satisfaction the library produces for asset subsets x {{nonmall,mall}} x {{library-length, maximal-length (71-byte DER + sighash)}} ECDSA signatures; descriptors wsh/sh-wsh/sh/bare/tr/pkh/wpkh/sh-wpkh for max_weight_to_satisfy; plans on a fixed explicit corpus. Every generated script is judged (no class is skipped); the plan-size corpus contains the three known unfixed Plan findings (wsh, sh-wsh, sh-wpkh).",
+        "{} nodes of all base types (C ext, C scriptsize): every context, quota-enumerated to depth {} + random larger + hand-written corpus (lock values at every script_num_size boundary, multi k,n around 16/17/20, multi_a n<=40, thresh n<=20 incl. unsatisfiable children, and_v chains to depth 20); {} B-typed scripts judged on every satisfaction the library produces for asset subsets x {{nonmall,mall}} x {{library-length, maximal-length (71-byte DER + sighash)}} ECDSA signatures; descriptors wsh/sh-wsh/sh/bare/tr (1 leaf, 2 leaves, 7 shapes of depth 2..4 with the script at every position, spent through every leaf and the key path)/pkh/wpkh/sh-wpkh for max_weight_to_satisfy; plan sizes on the same pool (wsh/sh-wsh: witness items only) plus the keyed corpus; public accessors max_satisfaction_size / max_satisfaction_witness_elements / within_resource_limits / validate(resource limits of CONSENSUS, SANE) on every node (C) and every satisfaction (J). Every generated script is judged (no class is skipped); the plan-size corpus contains the three known unfixed Plan findings (wsh, sh-wsh, sh-wpkh).",
         n_static, if thorough { 4 } else { 3 }, n_judged_scripts));
 }
 
